@@ -3,6 +3,7 @@ import ClaripyProofs.Lemmas.VSA.SetQueries
 import ClaripyProofs.Lemmas.VSA.Lub
 import ClaripyProofs.Lemmas.VSA.AddSub
 import Claripy.VSA.Conc
+import ClaripyProofs.Lemmas.VSA.ValueSetSound
 /-!
 # C23 — discrete interval sets and region value sets are sound abstractions
 
@@ -104,6 +105,146 @@ theorem C23_dsis_min_max_bound (d : DSIS) (s : SI) (x : Nat) (hs : s ∈ d.sis) 
 /-- non-vacuity: `{ 1[14,2], 1[6,8] }` at 4 bits (a member that wraps around 0) -/
 example : let d : DSIS := { bits := 4, sis := [SI.new 4 1 14 2, SI.new 4 1 6 8] }
     d.minQ false = .ok (some 0) ∧ d.maxQ false = .ok (some 15) ∧ (SI.new 4 1 14 2).mem 15 := by decide
+
+/-! ## every operation of `DiscreteStridedIntervalSet`, with the interval theorems of C21/C22 plugged in
+
+`NE w s`: a non-empty well-formed member of width `w`; `NEn`: … in constructor-normal form; `NEa`: … and aligned (the guard of
+the interval meet, hence of `*`, `%`, `==`, `!=`, `intersection`; alignment is an invariant of all interval operations except
+`widen`, C21/C22 `…_aligned`).  Every theorem holds for every iteration order of the Python sets involved (`order`). -/
+
+/-- the binary liftings `- | ^ & << LShR >> concat` -/
+theorem C23_dsis_binops (w : Nat) (a : DSIS) (bs : List SI) (order : List Nat) (v : Val) (x y : Nat) (hx : a.mem x)
+    (hy : memL bs y) :
+    ((∀ s, s ∈ a.sis → NE w s) → (∀ t, t ∈ bs → NE w t) → a.lift2 (fun s t => pure (s.sub t)) bs order = .ok v →
+      v.mem ((x + 2 ^ w - y) % 2 ^ w)) ∧
+    ((∀ s, s ∈ a.sis → NE w s) → (∀ t, t ∈ bs → NE w t) → a.lift2 SI.bitwiseOr bs order = .ok v → v.mem (x ||| y)) ∧
+    ((∀ s, s ∈ a.sis → NE w s) → (∀ t, t ∈ bs → NE w t) → a.lift2 SI.bitwiseXor bs order = .ok v → v.mem (x ^^^ y)) ∧
+    ((∀ s, s ∈ a.sis → NEn w s) → (∀ t, t ∈ bs → NEn w t) → a.lift2 SI.bitwiseAnd bs order = .ok v → v.mem (x &&& y)) ∧
+    ((∀ s, s ∈ a.sis → NE w s) → (∀ t, t ∈ bs → t.WF) → a.lift2 SI.lshift bs order = .ok v → v.mem (Conc.shl w x y)) ∧
+    ((∀ s, s ∈ a.sis → NE w s) → (∀ t, t ∈ bs → t.WF) → a.lift2 SI.rshiftLogical bs order = .ok v → v.mem (Conc.lshr w x y)) ∧
+    ((∀ s, s ∈ a.sis → NEn w s) → (∀ t, t ∈ bs → t.WF) → a.lift2 SI.rshiftArith bs order = .ok v → v.mem (Conc.ashr w x y)) ∧
+    (∀ wb, (∀ s, s ∈ a.sis → NE w s) → (∀ t, t ∈ bs → NE wb t) → a.lift2 SI.concat bs order = .ok v →
+      v.mem (Conc.concat wb x y)) :=
+  ⟨fun ha hb h => dsis_sub w a bs order v ha hb h x y hx hy, fun ha hb h => dsis_or w a bs order v ha hb h x y hx hy,
+   fun ha hb h => dsis_xor w a bs order v ha hb h x y hx hy, fun ha hb h => dsis_and w a bs order v ha hb h x y hx hy,
+   fun ha hb h => dsis_shl w a bs order v ha hb h x y hx hy, fun ha hb h => dsis_lshr w a bs order v ha hb h x y hx hy,
+   fun ha hb h => dsis_ashr w a bs order v ha hb h x y hx hy,
+   fun wb ha hb h => dsis_concat w wb a bs order v ha hb h x y hx hy⟩
+
+/-- `*` and `%` on sets — under the alignment guard of the interval operations (members aligned and normal for `*`; members of
+the divisor aligned for `%`, division by zero exempt).  The unguarded statements are false already on one-member sets
+(`C21.mul_unaligned_unsound`). -/
+theorem C23_dsis_mul_mod (w : Nat) (a : DSIS) (bs : List SI) (order : List Nat) (v : Val) (x y : Nat) (hx : a.mem x)
+    (hy : memL bs y) :
+    ((∀ s, s ∈ a.sis → NEa w s) → (∀ t, t ∈ bs → NEa w t) → a.lift2 SI.mul bs order = .ok v → v.mem ((x * y) % 2 ^ w)) ∧
+    ((∀ s, s ∈ a.sis → NE w s) → (∀ t, t ∈ bs → NE w t ∧ t.Aligned) → a.lift2 SI.mod bs order = .ok v → y ≠ 0 →
+      v.mem (x % y)) :=
+  ⟨fun ha hb h => dsis_mul w a bs order v ha hb h x y hx hy, fun ha hb h hy0 => dsis_mod w a bs order v ha hb h x y hx hy hy0⟩
+
+/-- the unary liftings `- ~ ZeroExt SignExt` and `extract` -/
+theorem C23_dsis_unops (w : Nat) (a : DSIS) (order : List Nat) (v : Val) (x : Nat) (hx : a.mem x) :
+    ((∀ s, s ∈ a.sis → NE w s) → a.lift1 (fun s => pure s.neg) order = .ok v → v.mem ((2 ^ w - x) % 2 ^ w)) ∧
+    ((∀ s, s ∈ a.sis → NE w s) → a.lift1 SI.bitwiseNot order = .ok v → v.mem (2 ^ w - 1 - x)) ∧
+    (∀ nl, w ≤ nl → (∀ s, s ∈ a.sis → NE w s) → a.lift1 (fun s => s.zeroExtend nl) order = .ok v → v.mem x) ∧
+    (∀ nl, w ≤ nl → (∀ s, s ∈ a.sis → NEn w s) → a.lift1 (fun s => s.signExtend nl) order = .ok v → v.mem (Conc.sext w nl x)) ∧
+    (∀ hi lo, lo ≤ hi → hi < w → (∀ s, s ∈ a.sis → NE w s) → a.extract hi lo order = .ok v → v.mem (Conc.extract hi lo x)) :=
+  ⟨fun ha h => dsis_neg w a order v ha h x hx, fun ha h => dsis_not w a order v ha h x hx,
+   fun nl hnl ha h => dsis_zext w nl hnl a order v ha h x hx, fun nl hnl ha h => dsis_sext w nl hnl a order v ha h x hx,
+   fun hi lo hlo hhi ha h => dsis_extract w hi lo hlo hhi a order v ha h x hx⟩
+
+/-- the eight orderings of a set against a set or an interval (both operands are collapsed first) -/
+theorem C23_dsis_orderings (w : Nat) (hw : 0 < w) (op : CmpOp) (a : DSIS) (b : Val) (br : BoolRes)
+    (h : a.cmp (fun ca cb => applyCmp op { si := ca } { si := cb }) b = .ok br) (x y : Nat) (hx : a.mem x) (hy : b.mem y) :
+    ((op = .ult ∨ op = .ule ∨ op = .ugt ∨ op = .uge) → Vok w (WFw w) (.ds a) → Vok w (WFw w) b →
+      br.has (concCmp op w x y) = true) ∧
+    ((op = .slt ∨ op = .sle ∨ op = .sgt ∨ op = .sge) → Vok w (fun s => WFw w s ∧ Nrm s) (.ds a) →
+      Vok w (fun s => WFw w s ∧ Nrm s) b → br.has (concCmp op w x y) = true) :=
+  ⟨fun hop ha hb => dsis_ucmp w hw op hop a b br ha hb h x y hx hy,
+   fun hop ha hb => dsis_scmp w hw op hop a b br ha hb h x y hx hy⟩
+
+/-- `==` / `!=` of a set — members aligned and normal (`collapse()` keeps both); unguarded it inherits `C21.eq_unaligned_unsound` -/
+theorem C23_dsis_eq (w : Nat) (hw : 0 < w) (a : DSIS) (b : Val) (br : BoolRes)
+    (ha : Vok w (fun s => WFw w s ∧ Nrm s ∧ s.Aligned) (.ds a)) (hb : Vok w (fun s => WFw w s ∧ Nrm s ∧ s.Aligned) b)
+    (h : a.cmp SI.eq b = .ok br) (x y : Nat) (hx : a.mem x) (hy : b.mem y) :
+    br.has (decide (x = y)) = true ∧ br.not.has (decide (x ≠ y)) = true :=
+  dsis_eq w hw a b br ha hb h x y hx hy
+
+/-- the reflected operations `o - set`, `o // set`, `o % set` (`o + set`, `o * set`, `o & set` … are the lifted operation itself) -/
+theorem C23_dsis_reflected (w : Nat) (hw : 0 < w) (a : DSIS) (o : SI) (hab : a.bits = w) (ho : NE w o)
+    (x y : Nat) (hx : a.mem x) (hy : o.mem y) :
+    (∀ o1 o2 v, (∀ s, s ∈ a.sis → NE w s) → a.rsub o o1 o2 = .ok v → v.mem ((y + 2 ^ w - x) % 2 ^ w)) ∧
+    (∀ order r, (∀ s, s ∈ a.sis → WFw w s) → a.rudiv o order = .ok r → x ≠ 0 → r.mem (y / x)) ∧
+    (∀ r, (∀ s, s ∈ a.sis → WFw w s ∧ s.Aligned) → a.rmod o = .ok r → x ≠ 0 → r.mem (y % x)) :=
+  ⟨fun o1 o2 v ha h => dsis_rsub w hw a o o1 o2 v hab ha ho h x y hx hy,
+   fun order r ha h hx0 => dsis_rudiv w hw a o order r hab ha ho h x y hx hy hx0,
+   fun r ha h hx0 => dsis_rmod w hw a o r hab ha ho h x y hx hy hx0⟩
+
+/-- `eval(n)` draws members only, and all of them once `n` covers every member interval -/
+theorem C23_dsis_eval (d : DSIS) (n : Nat) (l : List Int) (hd : ∀ s, s ∈ d.sis → s.WF ∧ s.bottom = false)
+    (h : d.evalCandidates n = .ok l) :
+    (∀ v, v ∈ l → ∃ x : Nat, v = (x : Int) ∧ d.mem x) ∧
+    ((∀ s, s ∈ d.sis → s.members.length ≤ n) → ∀ x, d.mem x → (x : Int) ∈ l) :=
+  dsis_eval d n l hd h
+
+/-- `union` of a set with an interval and with a set contains the members of both -/
+theorem C23_dsis_union (w : Nat) (a : DSIS) (hab : a.bits = w) (ha : ∀ m, m ∈ a.sis → NE w m) :
+    (∀ s order v, WFw w s → a.unionSI s order = .ok v → ∀ x, (a.mem x ∨ s.mem x) → v.mem x) ∧
+    (∀ b orders v, (∀ m, m ∈ b.sis → WFw w m) → a.unionDS b orders = .ok v → ∀ x, (a.mem x ∨ b.mem x) → v.mem x) :=
+  ⟨fun s order v hs h => (dsis_unionSI w a s order v hab ha hs h).2,
+   fun b orders v hb h => dsis_unionDS w a b orders v hab ha hb h⟩
+
+/-- `intersection` of a set with an interval and with a set contains every common member — members aligned and normal (the
+guard of the interval meet; unguarded it inherits `C22.meet_unaligned_unsound`) -/
+theorem C23_dsis_intersection (w : Nat) (hw : 0 < w) (a : DSIS) (hab : a.bits = w) (ha : ∀ m, m ∈ a.sis → NEa w m) :
+    (∀ s order v, NEa w s → a.meetSI s order = .ok v → ∀ x, a.mem x → s.mem x → v.mem x) ∧
+    (∀ b orders order v, (∀ m, m ∈ b.sis → NEa w m) → a.meetDS b orders order = .ok v → ∀ x, a.mem x → b.mem x → v.mem x) :=
+  ⟨fun s order v hs h => (dsis_meetSI w hw a s order v hab ha hs h).2,
+   fun b orders order v hb h => dsis_meetDS w hw a b orders order v hab ha hb h⟩
+
+/-- full statement for `widen` of a set (`self.collapse().widen(b)`) -/
+def C23_dsis_widen_full : Prop :=
+  ∀ (w : Nat) (a : DSIS) (b : Val) (r : SI), Vok w (NE w) (.ds a) → Vok w (NE w) b → a.widen b = .ok r →
+    ∀ x, (a.mem x ∨ b.mem x) → r.mem x
+
+/-- it inherits the unsound interval `widen` (C22 findings): `{ {1} }.widen({0}) = {1}` at 1 bit -/
+theorem dsis_widen_unsound : ¬ C23_dsis_widen_full := by
+  intro h
+  have := h 1 { bits := 1, sis := [SI.new 1 0 1 1] } (.si (SI.new 1 0 0 0)) (SI.new 1 0 1 1)
+    ⟨rfl, fun t ht => by rw [List.mem_singleton] at ht; rw [ht]; exact ⟨by decide, by decide, by decide⟩⟩
+    ⟨by decide, by decide, by decide⟩ (by decide) 0 (Or.inr (show (SI.new 1 0 0 0).mem 0 by decide))
+  exact absurd this (by decide)
+
+/-! ## value sets -/
+
+/-- `union` of a value set with an interval / a value set, and `intersection` with an interval, region by region -/
+theorem C23_valueset_union_meet (w : Nat) (v : VS) (region : String) (x : Nat) :
+    (∀ b v', (∀ p, p ∈ v.regions → WFw w p.2) → WFw w b → v.unionSI b = .ok v' →
+      (v.memAt region x ∨ ((∃ p, p ∈ v.regions ∧ p.1 = region) ∧ b.mem x)) → v'.memAt region x) ∧
+    (∀ b r, (∀ q, q ∈ v.regions → WFw w q.2) → (∀ q, q ∈ b.regions → WFw w q.2) → v.unionVS b = .ok r →
+      (v.memAt region x ∨ b.memAt region x) → r.memAt region x) ∧
+    (∀ b v', (∀ p, p ∈ v.regions → NEa w p.2) → NEa w b → v.meetSI b = .ok v' → v.memAt region x → b.mem x →
+      v'.memAt region x) :=
+  ⟨fun b v' hv hb h hx => vs_unionSI w v v' b hv hb h region x hx,
+   fun b r hv hb h hx => vs_unionVS w v b r hv hb h region x hx,
+   fun b v' hv hb h hx hbx => vs_meetSI w v v' b hv hb h region x hx hbx⟩
+
+/-- full statement for the intersection of two value sets (keys of a dict are distinct) -/
+def C23_valueset_meetVS_full : Prop :=
+  ∀ (w : Nat) (v b r : VS), (∀ p, p ∈ v.regions → NEa w p.2) → (∀ p, p ∈ b.regions → NEa w p.2) →
+    (b.regions.map (·.1)).Nodup → v.meetVS b = .ok r →
+    ∀ region x, v.memAt region x → b.memAt region x → r.memAt region x
+
+/-- non-vacuity: a set with a wrapping member, joined with / intersected by an interval; a value-set union -/
+example : let a : DSIS := { bits := 4, sis := [SI.new 4 1 14 2, SI.new 4 2 6 8] }
+    (∀ m, m ∈ a.sis → NEa 4 m) ∧ a.unionSI (SI.new 4 0 11 11) [0, 1, 2] = .ok (.ds { bits := 4, sis := [SI.new 4 1 14 2, SI.new 4 2 6 8, SI.new 4 0 11 11] }) ∧
+    (∃ v, a.meetSI (SI.new 4 3 0 15) [0, 1] = .ok v ∧ v.mem 0 ∧ v.mem 6) := by
+  refine ⟨?_, by decide, ⟨_, rfl, ?_, ?_⟩⟩
+  · intro m hm
+    simp only [List.mem_cons, List.mem_nil_iff, or_false] at hm
+    rcases hm with h | h <;> subst h <;>
+      exact ⟨⟨by decide, by decide, by decide⟩, nrm_new _ _ _ _ (by decide), by decide⟩
+  · exact ⟨_, List.mem_cons_self, by decide⟩
+  · exact ⟨_, List.mem_cons_of_mem _ List.mem_cons_self, by decide⟩
 
 /-- non-vacuity / bounded sanity fact: `{ {1}, 2[0,2] } + {1}` at 2 bits is `{ {2}, 2[1,3] }` -/
 theorem test_lift_example :
